@@ -358,6 +358,48 @@ impl<T: CellT + std::hash::Hash> Machine<T> {
                 self.held.extend(items);
                 if dead { json!({"k": "ids", "v": v, "dead_on_arrival": true}) } else { json!({"k": "ids", "v": v}) }
             }
+            "d_find" => {
+                let target = conc[0].checked_add(1);
+                let mut k = 0usize;
+                let p = |_: &T| {
+                    k += 1;
+                    Some(k) == target
+                };
+                let item = match &mut self.handle {
+                    Handle::Row(d) => d.find(p),
+                    Handle::Col(d) => d.find(p),
+                    Handle::Into(d) => d.find(p),
+                    Handle::None => panic!("harness: no handle"),
+                };
+                match item {
+                    None => res_none(),
+                    Some(e) => {
+                        let live = !T::TRACKED || (e.magic_ok() && ledger::is_live(e.serial()) == Some(true));
+                        let o = e.origin();
+                        self.held.push(e);
+                        if live { json!({"k": "some", "v": o}) } else { json!({"k": "some", "v": o, "dead_on_arrival": true}) }
+                    }
+                }
+            }
+            "d_for_each" => {
+                let h = std::mem::replace(&mut self.handle, Handle::None);
+                let held = &mut self.held;
+                let start = held.len();
+                let f = |e: T| {
+                    crate::fault::tick(crate::fault::Site::Closure);
+                    held.push(e);
+                };
+                match h {
+                    Handle::Row(d) => d.for_each(f),
+                    Handle::Col(d) => d.for_each(f),
+                    Handle::Into(d) => d.for_each(f),
+                    Handle::None => panic!("harness: no handle"),
+                };
+                let got = &self.held[start..];
+                let dead = T::TRACKED && got.iter().any(|e| !(e.magic_ok() && ledger::is_live(e.serial()) == Some(true)));
+                let v = origins_of(got);
+                if dead { json!({"k": "ids", "v": v, "dead_on_arrival": true}) } else { json!({"k": "ids", "v": v}) }
+            }
             "d_fold" | "d_rfold" => {
                 // every remaining item goes to a caller-supplied closure (fault site "closure"), which keeps it
                 let fwd = op == "d_fold";
@@ -685,7 +727,7 @@ pub fn index_args(op: &str, a: &Value) -> Vec<u64> {
     match op {
         "new" | "init" | "from_vec" | "from_box" => vec![get_u64(a, "nc"), get_u64(a, "nr")],
         "insert_row" | "insert_col" | "remove_row" | "remove_col" => vec![get_u64(a, "index")],
-        "d_nth" | "d_nth_back" => vec![get_u64(a, "n")],
+        "d_nth" | "d_nth_back" | "d_find" => vec![get_u64(a, "n")],
         "set" => vec![get_u64(a, "c"), get_u64(a, "r")],
         "swap" => vec![get_u64(a, "c1"), get_u64(a, "r1"), get_u64(a, "c2"), get_u64(a, "r2")],
         "swap_rows" => vec![get_u64(a, "r1"), get_u64(a, "r2")],
